@@ -125,8 +125,13 @@ prop("C13", "keep-alive detects a silent peer and only a silent peer", "fault_en
      "nothing / a ping never answered / a ping failing at once, and a parent-context cancel placed before, during or after a "
      "generated ping; oracle = reference classification of the return value (cancel > timeout > ping error), exact ping count, "
      "ticks never early, an unanswered ping is not given up before the timeout, and KeepAlive is still pinging after an "
-     "all-answered script. Non-trivial = >= 3 pings before the end or a cancel during a blocked ping; distinct = FNV-64 of the case.",
-     [dict(tests="^TestVerifC13_KeepAlive$", checks_quick=1200, checks_thorough=8000, shards=12)],
+     "all-answered script. Part 2: the real ReconnectClient with keep-alive on (interval 2..6 ms) against the broker model that goes "
+     "silent after a generated packet of connection 1 (and 2): the client must close that transport itself and dial again (stuck "
+     "detector, no upper time bound); negative class: every PINGREQ answered for >= 10 intervals with a far-away timeout: no close, "
+     "no redial, no ErrPingTimeout. Non-trivial = >= 3 pings before the end, a cancel during a blocked ping, silence after >= 1 "
+     "answered ping, or >= 3 answered pings in the negative class; distinct = FNV-64 of the case.",
+     [dict(tests="^TestVerifC13_KeepAlive$", checks_quick=1200, checks_thorough=8000, shards=12),
+      dict(tests="^TestVerifC13_SilentPeer$", checks_quick=500, checks_thorough=3000, shards=8)],
      assumptions=["the scripted Client decides the outcome of each ping, so machine load cannot turn 'answered' into 'late'",
                   "timers and tickers never fire early (monotonic clock)"])
 
